@@ -18,6 +18,7 @@
 #include "portable.h"
 
 #include "io.h"
+#include "verif.h"
 
 void (*io_start)(struct snapraid_io* io,
 	block_off_t blockstart, block_off_t blockmax,
@@ -150,6 +151,8 @@ static block_off_t io_read_next_mono(struct snapraid_io* io, void*** buffer)
 	/* schedule the next read */
 	io_reader_sched(io, 0, blockcur_schedule);
 
+	verif_io_event("C", 0, "TAKE", 0, blockcur_schedule, 1);
+
 	/* set the buffer to use */
 	*buffer = io->buffer_map[0];
 
@@ -269,6 +272,8 @@ static void io_start_mono(struct snapraid_io* io,
 	block_off_t blockstart, block_off_t blockmax,
 	bit_vect_t* block_enabled)
 {
+	verif_init();
+
 	io->block_start = blockstart;
 	io->block_max = blockmax;
 	io->block_enabled = block_enabled;
@@ -415,6 +420,8 @@ static block_off_t io_read_next_thread(struct snapraid_io* io, void*** buffer)
 	block_off_t blockcur_caller;
 	unsigned i;
 
+	verif_yield(1);
+
 	/* get the next parity position to process */
 	blockcur_schedule = io_position_next(io);
 
@@ -431,11 +438,15 @@ static block_off_t io_read_next_thread(struct snapraid_io* io, void*** buffer)
 	/* schedule the next read */
 	io_reader_sched(io, io->reader_index, blockcur_schedule);
 
+	verif_io_event("C", 0, "SCHEDR", io->reader_index, blockcur_schedule, 0);
+
 	/* set the index for the tasks to return to the caller */
 	io->reader_index = (io->reader_index + 1) % io->io_max;
 
 	/* get the position to operate at high level from one task */
 	blockcur_caller = io->reader_map[0].task_map[io->reader_index].position;
+
+	verif_io_event("C", 0, "TAKE", io->reader_index, blockcur_caller, 0);
 
 	/* set the buffer to use */
 	*buffer = io->buffer_map[io->reader_index];
@@ -456,6 +467,8 @@ static void io_write_preset_thread(struct snapraid_io* io, block_off_t blockcur,
 static void io_write_next_thread(struct snapraid_io* io, block_off_t blockcur, int skip, int* writer_error)
 {
 	unsigned i;
+
+	verif_yield(4);
 
 	/* ensure that all parity was written */
 	assert(io->writer_list[0] == io->writer_max);
@@ -480,6 +493,8 @@ static void io_write_next_thread(struct snapraid_io* io, block_off_t blockcur, i
 		/* schedule the next write */
 		io_writer_sched(io, io->writer_index, blockcur);
 	}
+
+	verif_io_event("C", 0, skip ? "SCHEDWS" : "SCHEDW", io->writer_index, blockcur, 0);
 
 	/* at this point the writers must be in sync with the readers */
 	assert(io->writer_index == io->reader_index);
@@ -541,6 +556,8 @@ static struct snapraid_task* io_task_read_thread(struct snapraid_io* io, unsigne
 {
 	unsigned waiting_cycle;
 
+	verif_yield(2);
+
 	/* count the waiting cycle */
 	waiting_cycle = 0;
 
@@ -586,6 +603,8 @@ static struct snapraid_task* io_task_read_thread(struct snapraid_io* io, unsigne
 
 					task = &worker->task_map[io->reader_index];
 
+					verif_io_event("C", 0, "GOT", io->reader_index, task->position, (int)i);
+
 					thread_mutex_unlock(&io->io_mutex);
 
 					/* mark the worker as processed */
@@ -628,6 +647,8 @@ static struct snapraid_task* io_parity_read_thread(struct snapraid_io* io, unsig
 static void io_parity_write_thread(struct snapraid_io* io, unsigned* pos, unsigned* waiting_map, unsigned* waiting_mac)
 {
 	unsigned waiting_cycle;
+
+	verif_yield(3);
 
 	/* count the waiting cycle */
 	waiting_cycle = 0;
@@ -672,6 +693,8 @@ static void io_parity_write_thread(struct snapraid_io* io, unsigned* pos, unsign
 
 			/* if the worker has finished this index */
 			if (busy_index != worker->index) {
+				verif_io_event("C", 0, "WAITW", busy_index, 0, (int)i);
+
 				thread_mutex_unlock(&io->io_mutex);
 
 				/* mark the worker as processed */
@@ -716,7 +739,9 @@ static void* io_reader_thread(void* arg)
 	struct snapraid_worker* worker = arg;
 
 	/* force completion of the first task */
+	verif_io_event("R", (unsigned)(worker - worker->io->reader_map), "RB", 0, worker->task_map[0].position, 0);
 	io_reader_worker(worker, &worker->task_map[0]);
+	verif_io_event("R", (unsigned)(worker - worker->io->reader_map), "RE", 0, worker->task_map[0].position, worker->task_map[0].state);
 
 	while (1) {
 		struct snapraid_task* task;
@@ -728,14 +753,21 @@ static void* io_reader_thread(void* arg)
 		if (!task)
 			break;
 
+		verif_yield(5);
+
 		/* nothing more to do */
 		if (task->state == TASK_STATE_EMPTY)
 			continue;
 
 		assert(task->state == TASK_STATE_READY);
 
+		verif_io_event("R", (unsigned)(worker - worker->io->reader_map), "RB", worker->index, task->position, 0);
+
 		/* work on the assigned task */
 		io_reader_worker(worker, task);
+
+		verif_io_event("R", (unsigned)(worker - worker->io->reader_map), "RE", worker->index, task->position, task->state);
+		verif_yield(6);
 	}
 
 	return 0;
@@ -756,16 +788,24 @@ static void* io_writer_thread(void* arg)
 		if (!task)
 			break;
 
+		verif_yield(7);
+
 		/* nothing more to do */
 		if (task->state == TASK_STATE_EMPTY) {
+			verif_io_event("W", (unsigned)(worker - worker->io->writer_map), "WSKIP", worker->index, task->position, 0);
 			latest_state = TASK_STATE_DONE;
 			continue;
 		}
 
 		assert(task->state == TASK_STATE_READY);
 
+		verif_io_event("W", (unsigned)(worker - worker->io->writer_map), "WB", worker->index, task->position, 0);
+
 		/* work on the assigned task */
 		worker->func(worker, task);
+
+		verif_io_event("W", (unsigned)(worker - worker->io->writer_map), "WE", worker->index, task->position, task->state);
+		verif_yield(8);
 
 		/* save the resulting state */
 		latest_state = task->state;
@@ -780,6 +820,9 @@ static void io_start_thread(struct snapraid_io* io,
 {
 	unsigned i;
 	tommy_node* j;
+
+	verif_init();
+	verif_io_event("C", 0, "START", io->io_max, blockstart, (int)io->reader_max);
 
 	/* enable the filesystem mutex in all disks */
 	for (j = io->state->disklist; j != 0; j = j->next) {
@@ -836,6 +879,8 @@ static void io_stop_thread(struct snapraid_io* io)
 {
 	unsigned i;
 
+	verif_io_event("C", 0, "STOP", 0, 0, 0);
+
 	thread_mutex_lock(&io->io_mutex);
 
 	/* mark that we are stopping */
@@ -864,6 +909,8 @@ static void io_stop_thread(struct snapraid_io* io)
 		/* wait for thread termination */
 		thread_join(worker->thread, &retval);
 	}
+
+	verif_io_event("C", 0, "JOINED", 0, 0, 0);
 }
 
 #endif
